@@ -57,9 +57,9 @@ fn main() {
                 }
             }
         }
-        "codec" | "ops" => {
-            let salt: u64 = if cmd == "codec" { 0xC0DEC } else { 0x0B5 };
-            let genf: fn(&mut Rng, bool) -> serde_json::Value = if cmd == "codec" { cvh::codec::gen_case } else { cvh::ops::gen_case };
+        "codec" | "ops" | "spec" => {
+            let salt: u64 = match cmd { "codec" => 0xC0DEC, "ops" => 0x0B5, _ => 0x59EC };
+            let genf: fn(&mut Rng, bool) -> serde_json::Value = match cmd { "codec" => cvh::codec::gen_case, "ops" => cvh::ops::gen_case, _ => cvh::specgen::gen_case };
             std::panic::set_hook(Box::new(|_| {}));
             if let Some(p) = arg(&args, "--replay") {
                 // replay: lines carry their generator coordinates
